@@ -79,13 +79,14 @@ class AssemblyStats:
                 for scffld in scaffolds:
                     name_length[scffld.name] = scffld.fragments_length
             else:
-                current_name = None
-                last_orig = None
+                # Unlocs share the original_name of their chromosome, but may
+                # not directly follow it in the sorted assembly (e.g.
+                # "SUPER_I_II" sorts between "SUPER_I" and "SUPER_I_unloc_1")
+                orig_name = {}
                 for scffld in scaffolds:
-                    orig = scffld.original_name
-                    if orig != last_orig:
-                        current_name = scffld.name
-                        last_orig = orig
+                    current_name = orig_name.setdefault(
+                        scffld.original_name, scffld.name
+                    )
                     name_length[current_name] = (
                         name_length.get(current_name, 0) + scffld.fragments_length
                     )
@@ -101,20 +102,20 @@ class AssemblyStats:
 
     def chromosome_name_csv(self, asm: Assembly):
         prefix = self.autosome_prefix
-        last_orig = None
-        chr_name = None
+        orig_chr_name = {}
 
         csv_str = io.StringIO()
         for scffld in asm.scaffolds:
             if scffld.rank in (1, 2):
                 name = scffld.name
                 orig = scffld.original_name
-                if last_orig and orig == last_orig:
+                if chr_name := orig_chr_name.get(orig):
+                    # Unlocs share the same original_name
                     localised = "no"
                 else:
                     localised = "yes"
                     chr_name = name.replace(prefix, "", 1)
-                    last_orig = orig
+                    orig_chr_name[orig] = chr_name
                 csv_str.write(",".join((name, chr_name, localised)))
                 csv_str.write("\n")
 
@@ -139,8 +140,7 @@ class AssemblyStats:
         head_pos = csv_str.tell()
 
         prefix = self.autosome_prefix
-        chr_name = None
-        last_orig = None
+        orig_chr_name = {}
         for hap, asm in hap_asm.items():
             if not hap:
                 hap = "Primary"
@@ -148,13 +148,13 @@ class AssemblyStats:
                 if scffld.rank in (1, 2):
                     name = scffld.name
                     orig = scffld.original_name
-                    if last_orig and orig == last_orig:
+                    if chr_name := orig_chr_name.get(orig):
                         # Unlocs share the same original_name
                         localised = "false"
                     else:
                         localised = "true"
-                        last_orig = orig
                         chr_name = name.replace(prefix, "", 1)
+                        orig_chr_name[orig] = chr_name
                     csvr.writerow(
                         (
                             hap,
